@@ -206,15 +206,36 @@ def router_rules(chk):
     ok_sig = va is not None and kw is not None
     deco = [U(d) for d in impl.decorator_list]
     ok_deco = deco == [f"torch.library.impl(f'quanto::{{{name}}}', 'default')"]
-    rets = sorted((n for n in ast.walk(impl) if isinstance(n, ast.Return)), key=lambda n: n.lineno)
-    texts = [U(r.value) for r in rets]
     want_ext = f"getattr(torch.ops.quanto_ext, {name})(*{va.arg}, **{kw.arg})" if ok_sig else ""
     want_py = f"getattr(torch.ops.quanto_py, {name})(*{va.arg}, **{kw.arg})" if ok_sig else ""
-    ok = ok_sig and texts == [want_ext, want_py]
-    # the ext call is inside try, guarded by _ext_enabled; the python call is the fall-through
-    tr = [n for n in ast.walk(impl) if isinstance(n, ast.Try)]
-    ok_try = len(tr) == 1 and any(isinstance(h.type, ast.Name) and h.type.id == "Exception" for h in tr[0].handlers) and not any(isinstance(x, ast.Raise) for h in tr[0].handlers for x in ast.walk(h))
-    guard = [n for n in ast.walk(impl) if isinstance(n, ast.If) and U(n.test) == "_ext_enabled"]
+    # path view: ext call exactly when extensions are enabled and nothing was raised; python call on every other path; no path re-raises
+    ps = paths_of(impl)
+    texts = []
+    ok = ok_sig and bool(ps)
+    n_ext = n_rec = n_off = 0
+    for p in ps:
+        if p.end[0] != "return" or p.end[1] is None:
+            ok = False
+            continue
+        t = U(p.end[1])
+        texts.append(str(t))
+        en = path_facts(p).get("_ext_enabled")
+        raised = any(U(c).startswith("__raised__(") and tr for c, tr, _ in p.conds)
+        caught_all = any(U(c).startswith("__raised__('Exception'") or U(c).startswith("__raised__('BaseException'") for c, tr, _ in p.conds if tr)
+        if en is True and not raised:
+            n_ext += 1
+            ok = ok and t == want_ext
+        elif en is True and raised:
+            n_rec += 1
+            ok = ok and t == want_py and caught_all
+        elif en is False:
+            n_off += 1
+            ok = ok and t == want_py
+        else:
+            ok = False
+    ok_try = n_rec >= 1
+    guard = [1] if (n_ext >= 1 and n_off >= 1) else []
+    texts = sorted(set(texts))
     chk.require("C04.R6", f"{mi.rel}:{impl.lineno}", ok and ok_try and len(guard) == 1 and ok_deco, f"router: quanto::<op> tries quanto_ext::<op>(*args, **kwargs) when extensions are enabled, falls back to quanto_py::<op>(*args, **kwargs) (returns {texts})", "define.impl", "router forwarding", "any torch.ops.quanto call: arguments dropped, or an extension failure is not recovered by the python implementation")
     libs = [n for n in ast.walk(define) if isinstance(n, ast.For)]
     it = libs[0].iter if libs else None
